@@ -192,8 +192,11 @@ class TClientHarness:
                 status, content = f.get('status', 503), f.get('body', 'oops').encode()
                 hdrs = [('Content-Type', f.get('ctype', 'text/plain'))]
             elif k == 'garbage':
+                self.faults.fired[-1]['orig_harmless'] = not any(
+                    p[:1] in (b'2', b'1', b'0') for p in content.split(b'\x1e'))
                 content = f.get('body', 'garbage').encode('utf-8', 'surrogatepass')
         rec['status'] = status
+        rec['content'] = content
         return FakeResponse(status, content, hdrs)
 
     # -- fake websocket-client ---------------------------------------------------------------------
@@ -277,6 +280,7 @@ class FakeWS:
         self.cursor = 0
         self.closed = False
         self.dropped = False
+        self.silent = False
 
     @property
     def connected(self):
@@ -303,33 +307,43 @@ class FakeWS:
 
     def recv(self):
         c = self.conn
-        if self.closed or self.dropped:
-            raise WebSocketConnectionClosedException('closed')
-        ok = self.h.sched.block(
-            lambda: len(c.sent) > self.cursor or c.server_closed or c.done or self.closed
-            or self.dropped, self.timeout, 'ws-recv')
-        if not ok:
-            raise WebSocketTimeoutException('timed out')
-        if len(c.sent) > self.cursor:
-            frame = c.sent[self.cursor][1]
-            self.cursor += 1
-            f = self.h.faults.next('ws-recv')
-            if f:
-                k = f['kind']
-                if k == 'drop':
-                    self.dropped = True
-                    self.h.world.ws_fail(c)
-                    raise WebSocketConnectionClosedException('connection lost (scripted)')
-                if k == 'replace':
-                    frame = f.get('frame', '6')
-                elif k == 'swallow':
-                    return self.recv()
-                elif k == 'silence':
-                    self.cursor = 10 ** 9        # nothing more is ever received
-                    return self.recv()
-            self.rec['recv'].append((self.h.clock.now, frame))
-            return frame
-        raise WebSocketConnectionClosedException('connection closed')
+        t0 = self.h.clock.now
+        while True:
+            if self.closed or self.dropped:
+                raise WebSocketConnectionClosedException('closed')
+            left = None if self.timeout is None else self.timeout - (self.h.clock.now - t0)
+            if left is not None and left <= 0:
+                raise WebSocketTimeoutException('timed out')
+            ok = self.h.sched.block(
+                lambda: self.closed or self.dropped or (not self.silent and (
+                    len(c.sent) > self.cursor or c.server_closed or c.done)),
+                left, 'ws-recv')
+            if not ok:
+                raise WebSocketTimeoutException('timed out')
+            if self.closed or self.dropped:
+                raise WebSocketConnectionClosedException('closed')
+            if len(c.sent) > self.cursor:
+                frame = c.sent[self.cursor][1]
+                self.cursor += 1
+                f = self.h.faults.next('ws-recv')
+                if f:
+                    k = f['kind']
+                    if k == 'drop':
+                        self.dropped = True
+                        self.h.world.ws_fail(c)
+                        raise WebSocketConnectionClosedException('connection lost (scripted)')
+                    if k == 'replace':
+                        self.h.faults.fired[-1]['orig_harmless'] = isinstance(frame, bytes) or \
+                            frame[:1] in ('4', '6')
+                        frame = f.get('frame', '6')
+                    elif k == 'swallow':
+                        continue
+                    elif k == 'silence':
+                        self.silent = True   # nothing more is ever received, not even a close
+                        continue
+                self.rec['recv'].append((self.h.clock.now, frame))
+                return frame
+            raise WebSocketConnectionClosedException('connection closed')
 
     def close(self):
         if not self.closed:
@@ -496,8 +510,11 @@ class FakeAioSession:
                 status, content = f.get('status', 503), f.get('body', 'oops').encode()
                 hdrs = [('Content-Type', f.get('ctype', 'text/plain'))]
             elif k == 'garbage':
+                h.faults.fired[-1]['orig_harmless'] = not any(
+                    p[:1] in (b'2', b'1', b'0') for p in content.split(b'\x1e'))
                 content = f.get('body', 'garbage').encode('utf-8', 'surrogatepass')
         rec['status'] = status
+        rec['content'] = content
         return FakeAioResponse(status, content, hdrs)
 
     async def ws_connect(self, url, headers=None, timeout=None, ssl=None, **extra):
@@ -535,6 +552,7 @@ class FakeAioWS:
         self.cursor = 0
         self.closed = False
         self.dropped = False
+        self.silent = False
 
     async def _wait(self, pred):
         # poll at every loop turn without letting virtual time pass on its own
@@ -556,9 +574,13 @@ class FakeAioWS:
         self.h.world.ws_client_send(self.conn, data)
 
     async def send_str(self, data):
+        if not isinstance(data, str):
+            raise TypeError('data argument must be str (%r)' % type(data))
         await self._send(data)
 
     async def send_bytes(self, data):
+        if not isinstance(data, (bytes, bytearray, memoryview)):
+            raise TypeError('data argument must be byte-ish (%r)' % type(data))
         await self._send(bytes(data))
 
     async def receive(self):
@@ -566,8 +588,8 @@ class FakeAioWS:
         c = self.conn
         if self.closed or self.dropped:
             return aiohttp.WSMessage(aiohttp.WSMsgType.CLOSED, None, None)
-        await self._wait(lambda: len(c.sent) > self.cursor or c.server_closed or c.done
-                         or self.closed or self.dropped)
+        await self._wait(lambda: self.closed or self.dropped or (not self.silent and (
+            len(c.sent) > self.cursor or c.server_closed or c.done)))
         if len(c.sent) > self.cursor:
             frame = c.sent[self.cursor][1]
             self.cursor += 1
@@ -579,11 +601,13 @@ class FakeAioWS:
                     self.h.world.ws_fail(c)
                     return aiohttp.WSMessage(aiohttp.WSMsgType.CLOSED, None, None)
                 if k == 'replace':
+                    self.h.faults.fired[-1]['orig_harmless'] = isinstance(frame, bytes) or \
+                        frame[:1] in ('4', '6')
                     frame = f.get('frame', '6')
                 elif k == 'swallow':
                     return await self.receive()
                 elif k == 'silence':
-                    self.cursor = 10 ** 9
+                    self.silent = True
                     return await self.receive()
             self.rec['recv'].append((self.h.clock.now, frame))
             t = aiohttp.WSMsgType.BINARY if isinstance(frame, (bytes, bytearray)) \
